@@ -4,12 +4,12 @@ CONSTANTS
  KindOf = 0
  Procs = {1, 2, 3}
  OpProcs = {1}
- TxProcs = {2}
- RemoteProcs = {3}
+ TxProcs = {2, 3}
+ RemoteProcs = {}
+ FailProcs = {2}
  Calls = 1
- TxLen = 2
+ TxLen = 1
  Guarded = TRUE
- FailProcs = {}
 INVARIANT NoCrash
 INVARIANT MutualExclusion
 INVARIANT NoLostUnlock
@@ -17,5 +17,4 @@ INVARIANT NoLostUpdate
 INVARIANT QueuedOnce
 INVARIANT TxContiguous
 VIEW StateView
-ACTION_CONSTRAINT EdgeDump
 CHECK_DEADLOCK FALSE
